@@ -51,6 +51,9 @@ def main(argv):
                 # during discovery a stray Report with a foreign message id, engine id and clock arrives first: it must leave no trace
                 stray_report = dict(report, msgid="same+1", engine="80001f8880ee" + "%02x" % rng.randrange(256), boots=7, time=7)
                 steps = [{"op": "enter", "replies": [[stray_report, report]], "default_reply": report}]
+                if not given and rng.random() < 0.5:
+                    # the first discovery probe is lost (the call times out); the retry must still install the user's keys
+                    steps = [{"op": "enter", "replies": [[]], "_lost": True}] + steps
                 stamps = []
                 for k in range(6 if thorough else 4):
                     b, t = rng.choice([v3["boots"], v3["boots"] + 1, rng.randrange(2 ** 31)]), rng.choice([0, 1, 2 ** 31 - 1, rng.randrange(2 ** 31)])
@@ -102,6 +105,11 @@ def main(argv):
             if rec.get("create_error"):
                 bad("session could not be created: %s" % rec["create_error"], key="create")
                 continue
+            if sc["steps"][0].get("_lost"):
+                lost = rec["steps"].pop(0)
+                sc = dict(sc, steps=sc["steps"][1:])
+                if lost["kind"] == "RET":
+                    bad("refresh returned although the discovery probe was never answered", lost, key="refresh-without-reply")
             enter = rec["steps"][0]
             if enter["kind"] != "RET":
                 bad("refresh failed: %s" % enter.get("exc"), enter, key="refresh-failed")
